@@ -24,20 +24,20 @@ import (
 // implementations (file storage in a fresh temporary directory, memory
 // storage): the ownership and read-only clauses of C18 on the real thing.
 type RSCase struct {
-	Kind  string    `json:"kind"` // file | mem
+	Kind  string    `json:"kind"` // file | filedb (leveldb.OpenFile: the DB owns the storage) | mem
 	WB    int       `json:"wb"`
 	Keys  []gen.Hex `json:"keys"`
 	Steps []RSStep  `json:"steps"`
 }
 
-// RSStep: put del open2 reopen roopen closed
+// RSStep: put del open2 reopen roopen closed faultclose
 type RSStep struct {
 	T    string `json:"t"`
 	K    int    `json:"k,omitempty"`
 	VLen int    `json:"vlen,omitempty"`
 }
 
-type sStats struct{ open2, reopen, roopen, roJournal, closed int }
+type sStats struct{ open2, reopen, roopen, roJournal, closed, pendingCurrent, faultClose int }
 
 func dirDigest(dir string) (string, error) {
 	ents, err := os.ReadDir(dir)
@@ -64,6 +64,7 @@ func runStorageLifecycle(c *RSCase, dir string) (st sStats, err error) {
 	}()
 	o := &opt.Options{WriteBuffer: c.WB, CompactionTableSize: 1024, BlockSize: 256, DisableCompactionBackoff: true}
 	var stor storage.Storage
+	onDisk := c.Kind == "file" || c.Kind == "filedb"
 	openStor := func(ro bool) (storage.Storage, error) {
 		if c.Kind == "file" {
 			return storage.OpenFile(dir, ro)
@@ -73,11 +74,18 @@ func runStorageLifecycle(c *RSCase, dir string) (st sStats, err error) {
 		}
 		return storage.NewMemStorage(), nil
 	}
-	stor, err = openStor(false)
-	if err != nil {
-		return st, fmt.Errorf("opening the storage: %v", err)
+	// openDB opens the DB read-write the way the case's kind does it
+	openDB := func() (*leveldb.DB, error) {
+		if c.Kind == "filedb" {
+			return leveldb.OpenFile(dir, o)
+		}
+		var err error
+		if stor, err = openStor(false); err != nil {
+			return nil, fmt.Errorf("opening the storage: %v", err)
+		}
+		return leveldb.Open(stor, o)
 	}
-	db, err := leveldb.Open(stor, o)
+	db, err := openDB()
 	if err != nil {
 		return st, fmt.Errorf("Open on a fresh storage: %v", err)
 	}
@@ -125,11 +133,16 @@ func runStorageLifecycle(c *RSCase, dir string) (st sStats, err error) {
 		case "open2":
 			// the storage is owned: a second DB on the same storage object must be refused, and for
 			// the file storage a second storage object on the same directory as well (either mode)
-			if d2, err2 := leveldb.Open(stor, o); err2 == nil {
+			if c.Kind == "filedb" {
+				if d2, err2 := leveldb.OpenFile(dir, o); err2 == nil {
+					d2.Close()
+					return st, fmt.Errorf("step #%d: a second leveldb.OpenFile on a directory that is in use succeeded", i)
+				}
+			} else if d2, err2 := leveldb.Open(stor, o); err2 == nil {
 				d2.Close()
 				return st, fmt.Errorf("step #%d: a second leveldb.Open on a storage that is in use succeeded", i)
 			}
-			if c.Kind == "file" {
+			if onDisk {
 				for _, ro := range []bool{false, true} {
 					if s2, err2 := storage.OpenFile(dir, ro); err2 == nil {
 						s2.Close()
@@ -141,9 +154,31 @@ func runStorageLifecycle(c *RSCase, dir string) (st sStats, err error) {
 				return st, err
 			}
 			st.open2++
-		case "reopen", "roopen", "closed":
-			if err := db.Close(); err != nil {
-				return st, fmt.Errorf("step #%d Close: %v", i, err)
+		case "reopen", "roopen", "closed", "faultclose":
+			hidden := []string{}
+			if s.T == "faultclose" && onDisk {
+				// storage trouble at shutdown: the table files vanish, a compaction fails and is
+				// still being retried when Close is called; Close may report that error, but it
+				// must release the storage all the same. The files come back afterwards.
+				ents, _ := os.ReadDir(dir)
+				for _, e := range ents {
+					if filepath.Ext(e.Name()) == ".ldb" {
+						if os.Rename(filepath.Join(dir, e.Name()), filepath.Join(dir, e.Name()+".hidden")) == nil {
+							hidden = append(hidden, e.Name())
+						}
+					}
+				}
+				if len(hidden) > 0 {
+					db.CompactRange(util.Range{})
+					st.faultClose++
+				}
+			}
+			cerr := db.Close()
+			for _, n := range hidden {
+				os.Rename(filepath.Join(dir, n+".hidden"), filepath.Join(dir, n))
+			}
+			if cerr != nil && len(hidden) == 0 {
+				return st, fmt.Errorf("step #%d Close: %v", i, cerr)
 			}
 			if err2 := db.Close(); err2 != leveldb.ErrClosed {
 				return st, fmt.Errorf("step #%d second Close returned %v", i, err2)
@@ -164,7 +199,19 @@ func runStorageLifecycle(c *RSCase, dir string) (st sStats, err error) {
 				}
 				stor = nil
 			}
-			if s.T == "roopen" && c.Kind == "file" {
+			if s.T == "roopen" && onDisk {
+				if s.K%2 == 1 {
+					// what a crash in the middle of a manifest switch leaves behind: a pending
+					// CURRENT.<n> next to CURRENT (here naming the live manifest)
+					if cur, rerr := os.ReadFile(filepath.Join(dir, "CURRENT")); rerr == nil {
+						var n int
+						if _, serr := fmt.Sscanf(string(cur), "MANIFEST-%d", &n); serr == nil {
+							if os.WriteFile(filepath.Join(dir, fmt.Sprintf("CURRENT.%d", n)), cur, 0o644) == nil {
+								st.pendingCurrent++
+							}
+						}
+					}
+				}
 				before, derr := dirDigest(dir)
 				if derr != nil {
 					return st, derr
@@ -214,13 +261,9 @@ func runStorageLifecycle(c *RSCase, dir string) (st sStats, err error) {
 					st.roJournal++
 				}
 			}
-			stor, err = openStor(false)
+			db, err = openDB()
 			if err != nil {
 				return st, fmt.Errorf("step #%d: the storage is not available again after Close: %v", i, err)
-			}
-			db, err = leveldb.Open(stor, o)
-			if err != nil {
-				return st, fmt.Errorf("step #%d: Open after Close: %v", i, err)
 			}
 			sinceFlush = 0
 			if err := readAll(db, fmt.Sprintf("step #%d after reopen", i)); err != nil {
@@ -234,12 +277,12 @@ func runStorageLifecycle(c *RSCase, dir string) (st sStats, err error) {
 
 func drawRSCase(t *rapid.T) *RSCase {
 	c := &RSCase{}
-	c.Kind = rapid.SampledFrom([]string{"file", "file", "mem"}).Draw(t, "kind")
+	c.Kind = rapid.SampledFrom([]string{"file", "file", "filedb", "filedb", "mem"}).Draw(t, "kind")
 	c.WB = rapid.SampledFrom([]int{512, 2048, 1 << 20}).Draw(t, "wb")
 	c.Keys = gen.DrawKeyPool(t, 2, 10)
 	nk := len(c.Keys)
 	sg := rapid.Custom(func(t *rapid.T) RSStep {
-		s := RSStep{T: rapid.SampledFrom([]string{"put", "put", "put", "put", "put", "del", "open2", "reopen", "roopen", "closed"}).Draw(t, "t")}
+		s := RSStep{T: rapid.SampledFrom([]string{"put", "put", "put", "put", "put", "del", "open2", "reopen", "roopen", "closed", "faultclose"}).Draw(t, "t")}
 		s.K = rapid.IntRange(0, nk-1).Draw(t, "k")
 		if s.T == "put" {
 			s.VLen = rapid.SampledFrom([]int{0, 10, 100, 600}).Draw(t, "vl")
@@ -290,6 +333,8 @@ func TestC18S(t *testing.T) {
 		add(st.open2 > 0, "real-storage-second-open-refused")
 		add(st.roopen > 0, "real-storage-read-only-session")
 		add(st.roJournal > 0, "real-storage-read-only-with-data-in-journal")
+		add(st.pendingCurrent > 0, "real-storage-read-only-with-pending-CURRENT")
+		add(st.faultClose > 0, "real-storage-close-while-compaction-fails")
 		nt := st.open2 > 0 && st.reopen > 0 && (c.Kind == "mem" || st.roopen > 0)
 		rec.Case(evid.FP(c), nt, cl...)
 	})
